@@ -57,6 +57,8 @@ impl Dom for Sym {
     fn term_id(self) -> u64 { self.0 as u64 }
     fn ratio_sqrt_parts(self) -> Option<(Sym, Sym)> {
         if let sym::Node::Div(a, b) = sym::node_of(self) { if let sym::Node::Sqrt(c) = sym::node_of(Sym(b)) { return Some((Sym(a), Sym(c))); } }
+        // exact replay: every term is a constant; fall back to the recorded operands (see Ctx::div_parts)
+        if let Some((a, b)) = sym::exact_div_parts(self) { if let Some(c) = sym::exact_sqrt_arg(b) { return Some((a, c)); } }
         None
     }
     fn input_unit(name: &str) -> Sym {
